@@ -144,3 +144,31 @@ kproof!(noerr, 7, fn c15_q_percentile4_is_element() {
     kani::cover!(p == 50.0, "reach p = 50 on an even length");
     std::mem::forget(heap);
 });
+
+// four numbers (even length): median is the mean of the two middle order statistics, min / max
+// bound every element and are elements; list and varargs conventions agree bit for bit
+kproof!(noerr, 8, fn c15_t_median4_min4_max4() {
+    let (a, b, c, d): (f64, f64, f64, f64) = (any_f64_m(6), any_f64_m(6), any_f64_m(6), any_f64_m(6));
+    kani::assume(no_nan(a, b, c) && !d.is_nan());
+    let l = arena::list_cell(vec![n(a), n(b), n(c), n(d)]);
+    let heap = arena::heap();
+    let m1 = ok(call_bi(BuiltInFunction::Median, av![l], &heap));
+    let m2 = ok(call_bi(BuiltInFunction::Median, av![n(a), n(b), n(c), n(d)], &heap));
+    assert!(same_value(m1, m2));
+    let mn = ok(call_bi(BuiltInFunction::Min, av![l], &heap));
+    let mx = ok(call_bi(BuiltInFunction::Max, av![l], &heap));
+    let mn2 = ok(call_bi(BuiltInFunction::Min, av![n(a), n(b), n(c), n(d)], &heap));
+    let mx2 = ok(call_bi(BuiltInFunction::Max, av![n(a), n(b), n(c), n(d)], &heap));
+    assert!(same_value(mn, mn2) && same_value(mx, mx2));
+    // sorting network reference for the order statistics
+    let (lo1, hi1) = if a <= b { (a, b) } else { (b, a) };
+    let (lo2, hi2) = if c <= d { (c, d) } else { (d, c) };
+    let lo = if lo1 <= lo2 { lo1 } else { lo2 };
+    let hi = if hi1 >= hi2 { hi1 } else { hi2 };
+    let mid_a = if lo1 <= lo2 { lo2 } else { lo1 };
+    let mid_b = if hi1 >= hi2 { hi2 } else { hi1 };
+    assert!(eqnum(mn, lo) && eqnum(mx, hi));
+    assert!(eqnum(m1, (mid_a + mid_b) / 2.0));
+    kani::cover!(a > b && b > c && c > d, "reach a strictly decreasing list");
+    std::mem::forget(heap);
+});
